@@ -54,14 +54,14 @@ func TestVerifFindingE(t *testing.T) {
 	r.changeConfig(cfg2)
 
 	// a snapshot request is accepted: `go func(index, config){...}(r.snaps.index+threshold, r.configs.Committed)`
-	index, config := r.snaps.index+0, r.configs.Committed
+	index := r.snaps.index + 0
 	// before that goroutine gets to run, the leader's commit index arrives and the FSM applies up to 3
 	r.setCommitIndex(3)
 	r.applyCommitted(nil)
 	if got := r.lastApplied(); got != 3 {
 		t.Fatalf("lastApplied=%d", got)
 	}
-	meta, err := doTakeSnapshot(r.fsm, index, config)
+	meta, err := doTakeSnapshot(r.fsm, index)
 	if err != nil {
 		t.Fatal(err)
 	}
